@@ -16,8 +16,41 @@ RULE = ("at several points of a write history (members created, overwritten, del
         "data; every list is replayed href by href to check independence; distinct = distinct (front end, prefix, kind, href class, outcome)")
 
 
+def ext_hidden_behind_colon(name):
+    """mechanism of the known finding: mimetypes.guess_type() treats the text up to the
+    first ':' as a URL scheme and looks for the extension in the rest only; if the rest
+    has no dot other than leading ones (':.ics', ':...vcf') no extension is found"""
+    import posixpath
+    if ":" not in name:
+        return False
+    rest = name.split(":", 1)[1]
+    return posixpath.splitext(rest)[1] == "" and posixpath.splitext(name)[1] != ""
+
+
+def remove_dot_segments(p):
+    """RFC 3986 5.2.4"""
+    out = []
+    segs = p.split("/")
+    for i, seg in enumerate(segs):
+        last = i == len(segs) - 1
+        if seg == ".":
+            if last:
+                out.append("")
+        elif seg == "..":
+            if len(out) > 1:
+                out.pop()
+            if last:
+                out.append("")
+        else:
+            out.append(seg)
+    return "/".join(out)
+
+
 def norm_href(h, prefix):
-    """class key: percent-decoded path without scheme/authority"""
+    """class key: two hrefs are the same href iff they are equivalent under RFC 3986
+    syntax-based normalisation (6.2.2: escapes, dot segments) after resolution against
+    the request URL (scheme and authority dropped).  Doubled or trailing slashes are
+    *not* equivalent spellings: such an href is a distinct href and has its own answer."""
     if h is None:
         return None
     try:
@@ -25,9 +58,7 @@ def norm_href(h, prefix):
         p = urllib.parse.unquote(sp.path)
     except ValueError:
         p = urllib.parse.unquote(h)
-    # RFC 3986 normalisation: dot segments, doubled and trailing slashes
-    import posixpath
-    return posixpath.normpath(p) if p else p
+    return remove_dot_segments(p) if p.startswith("/") else p
 
 
 class Runner:
@@ -82,7 +113,7 @@ class Runner:
         out = []
         classes = ["emitted", "encoded", "lower-escapes", "absolute-url", "deleted", "never-existed", "other-collection", "other-kind", "collection-itself", "outside-prefix",
                    "sibling-prefix", "empty", "lone-percent", "bad-escape", "dot-segments", "duplicate", "absolute-url-other-host", "root", "parent-collection", "trailing-slash-on-member",
-                   "bogus-parent-same-basename", "bogus-parent-same-basename"]
+                   "bogus-parent-same-basename", "bogus-parent-same-basename", "alias-with-canonical", "alias-with-canonical"]
         for _ in range(n):
             c = rng.choice(classes)
             if c == "emitted" and live:
@@ -146,6 +177,18 @@ class Runner:
                 q = gen.quote_name(nm)
                 variants = [w.url(w.parent_of(colpath)) + "never-existed/" + q, w.url(colpath, nm) + "/" + q, w.url("/user/") + q, w.prefix.rstrip("/") + "/nowhere/at/all/" + q]
                 out.append((rng.choice(variants), c, "notfound", None))
+            elif c == "alias-with-canonical" and live:
+                # several spellings of one member in the same list; the ones that are not
+                # RFC 3986-equivalent are distinct hrefs, each owed its own answer
+                nm = rng.choice(live)
+                canon = w.url(colpath, nm)
+                cp = w.url(colpath)
+                last = colpath.rstrip("/").rsplit("/", 1)[-1]
+                alts = [("doubled-slash", cp + "/" + gen.quote_name(nm)), ("doubled-slash", cp.rstrip("/").rsplit("/", 1)[0] + "//" + last + "/" + gen.quote_name(nm)),
+                        ("dot-segments", cp + "./" + gen.quote_name(nm)), ("dot-segments", cp + "zz/../" + gen.quote_name(nm))]
+                pick = [(canon, "encoded", "found", (colpath, nm))] + [(a, k, "free", (colpath, nm)) for k, a in rng.sample(alts, rng.randint(1, 3))]
+                rng.shuffle(pick)
+                out += pick
             elif c == "duplicate" and out:
                 out.append(rng.choice(out))
         return out
@@ -219,7 +262,7 @@ class Runner:
                     ct_ = (r_.header("Content-Type") or "").split(";")[0]
                     if st_ == 200 and ct_ != W.CT[kind]:
                         # the server itself does not regard the member as being of this kind
-                        ncls = "name-with-colon-before-extension-dot" if re.search(r":\.[A-Za-z0-9]+$", ref[1]) else feature(ref[1]) + "-name"
+                        ncls = "name-with-extension-hidden-behind-colon" if ext_hidden_behind_colon(ref[1]) else feature(ref[1]) + "-name"
                         self.viol(f"member-typed-{ct_}-by-server/{ncls}/answered-{outcome}", f"multiget: live member {ref!r} (uploaded as {W.CT[kind]}) is served as {ct_!r} and answered {outcome}")
                     else:
                         self.viol(f"{self.where()}/{kind}/{c}/existing-resource-answered-{outcome}", f"multiget {hrefs!r}: href {h!r} ({c}) addresses live member {ref!r} but was answered {outcome}")
@@ -325,10 +368,10 @@ def check(tier, seed, t0):
     k = 1 if not th else 15
     guards = [("href lists", c.get("lists", 0), 1200 * k), ("href classes judged", c.get("hrefs_judged", 0), 6000 * k), ("found answers compared with GET", c.get("found_compared_with_get", 0), 800 * k),
               ("singleton replays", c.get("singleton_replays", 0), 6000 * k), ("answers found", c.get("outcome:found", 0), 800 * k), ("answers not found", c.get("outcome:notfound", 0), 500 * k)]
-    for cl in ("emitted", "encoded", "lower-escapes", "absolute-url", "deleted", "never-existed", "other-collection", "other-kind", "collection-itself", "outside-prefix", "sibling-prefix", "empty", "bad-escape", "dot-segments", "bogus-parent-same-basename"):
+    for cl in ("emitted", "encoded", "lower-escapes", "absolute-url", "deleted", "never-existed", "other-collection", "other-kind", "collection-itself", "outside-prefix", "sibling-prefix", "empty", "bad-escape", "dot-segments", "bogus-parent-same-basename", "doubled-slash"):
         guards.append(("class " + cl, c.get("class:" + cl, 0), 20))
     return common.finish(PROP, tier, seed, "exploration", merged, failures, RULE, t0, guards=guards,
-                         assumptions=["XML parsers normalise CRLF to LF: data is compared modulo line ends", "hrefs on another host, dot-segment spellings and member hrefs with a trailing slash may be answered either way (checked for consistency only)"])
+                         assumptions=["XML parsers normalise CRLF to LF: data is compared modulo line ends", "hrefs on another host, dot-segment or doubled-slash spellings and member hrefs with a trailing slash may be answered found or not found (checked for consistency and independence only)", "two hrefs count as the same href iff equivalent under RFC 3986 6.2.2 normalisation (escapes, dot segments, scheme+authority dropped): those may share one answer; doubled / trailing slashes make a distinct href"])
 
 
 def replay(path):
